@@ -1,5 +1,6 @@
 import Tea.Gen.KeyTable
 import Tea.Proofs.ChunkedRunes
+import Tea.Proofs.ChunkedEvents
 /-
 Bridge theorems for C15: the key table regenerated from /repo's working tree (`Tea/Gen`)
 satisfies the two table hypotheses of the C15 theorems.  (Same role as
@@ -18,5 +19,17 @@ completely filled buffer is an incomplete event (hypothesis `hesc` of `C15_mouse
 `C15_x10_straddle`) -/
 theorem esc_is_proper_prefix : isProperPrefixOfKey Tea.Gen.extSequences [0x1b] = true := by
   decide +kernel
+
+/-- the current key table and list of lengths satisfy every table hypothesis (`TableOK`) of
+`C15_stream_events` (streams of events over any number of completely filled reads): so that
+theorem is a theorem about the table the code uses now -/
+theorem table_ok : TableOK Tea.Gen.extSequences Tea.Gen.seqLengths where
+  consistent := consistent_of_nodupKeys _ (nodupKeys_of_sorted _ (by decide +kernel))
+  introFree := by decide +kernel
+  wf := wfTable_of_B (by decide +kernel)
+  esc := esc_is_proper_prefix
+  lensDesc := by decide
+  lensAll := by decide +kernel
+  lensPos := by decide
 
 end Tea.Props.Bridge
